@@ -579,6 +579,7 @@ func (r *SqlManager) Rollback(ctx context.Context) {
 			groupedChanges[change.TransactionID] = append(groupedChanges[change.TransactionID], change)
 		}
 		// check per transaction_id if all are committed
+	nextTransaction:
 		for transactionID, versionChanges := range groupedChanges {
 			// The selection above is per document version, the verdict and the clean-up below are per transaction:
 			// only judge a transaction when all of its changes were selected (they may lie on both sides of the time limit).
@@ -591,7 +592,13 @@ func (r *SqlManager) Rollback(ctx context.Context) {
 			}
 			committed := true
 			for _, change := range versionChanges {
-				committed, err = r.MethodManagers[change.Method()].IsCommitted(ctx, change)
+				manager, ok := r.MethodManagers[change.Method()]
+				if !ok {
+					// the DID method of this change is not enabled (any more), so the transaction can't be judged: leave it as it is
+					log.Logger().Warnf("Not rolling back DID document changes for disabled DID method (method=%s, transaction=%s)", change.Method(), transactionID)
+					continue nextTransaction
+				}
+				committed, err = manager.IsCommitted(ctx, change)
 				if err != nil {
 					return err
 				}
